@@ -5,6 +5,7 @@ CONSTANTS
   States = {"P", "R", "S", "F"}
   Needs = {1, 2, 4}
   MaxHold = 2
+  EnableOut = TRUE
   EnableCons = TRUE
   UseMin = FALSE
   FlagProducerOnEdgeLoss = TRUE
